@@ -5,6 +5,7 @@ package main
 import (
 	"fmt"
 	"os"
+	"runtime/debug"
 
 	"go/constant"
 	"go/types"
@@ -29,7 +30,12 @@ type SpecEnv struct {
 
 type specErr struct{ msg string }
 
-func (e *SpecEnv) fail(format string, a ...any) { panic(specErr{fmt.Sprintf(format, a...)}) }
+func (e *SpecEnv) fail(format string, a ...any) {
+	if os.Getenv("GOVC_SPECTRACE") != "" {
+		debug.PrintStack()
+	}
+	panic(specErr{fmt.Sprintf(format, a...)})
+}
 
 func (e *SpecEnv) child() *SpecEnv {
 	c := *e
@@ -268,7 +274,7 @@ func (e *SpecEnv) eval(x *SExpr) Val {
 		var facts []*Term
 		collect([]*Term{body}, func(t *Term) {
 			if t.Rng != nil && t.Sort == SInt && dependsOn(t, bv) && isAtom(t) {
-				facts = append(facts, And(Le(IntB(t.Rng.Lo), t), Le(t, IntB(t.Rng.Hi))))
+				facts = append(facts, rangeFact(t))
 			}
 		})
 		if x.Op == "forallT" {
@@ -287,7 +293,7 @@ func (e *SpecEnv) eval(x *SExpr) Val {
 		var facts []*Term
 		collect([]*Term{body}, func(t *Term) {
 			if t.Rng != nil && t.Sort == SInt && dependsOn(t, bv) && isAtom(t) {
-				facts = append(facts, And(Le(IntB(t.Rng.Lo), t), Le(t, IntB(t.Rng.Hi))))
+				facts = append(facts, rangeFact(t))
 			}
 		})
 		rng := And(Le(lo, bv), Lt(bv, hi))
@@ -533,6 +539,9 @@ func (e *SpecEnv) nilCompare(v Val, t *Term) (*Term, *Term) {
 	if _, ok := v.(PtrV); ok {
 		return IntC(1), IntC(0) // cell pointers are never nil
 	}
+	if unionCases[t.Sort] != nil {
+		return Ite(IsCtor(t.Sort.Ctors[0], t), IntC(0), IntC(1)), IntC(0)
+	}
 	e.fail("nil comparison on sort %s", t.Sort)
 	return nil, nil
 }
@@ -668,7 +677,7 @@ func (e *SpecEnv) call(x *SExpr) Val {
 		if pk := e.ex.P.findPkgByName(e.pkgPath, pkgQual); pk != nil {
 			pkgPath = pk.PkgPath
 		} else {
-			e.fail("unknown package %s", pkgQual)
+			e.fail("unknown package %s (vars: %s)", pkgQual, debugVars(e))
 		}
 	}
 	if name != "" {
